@@ -8,7 +8,7 @@ instantiation.  All theorems are about the model `Model/Cw3Fixed.lean` (shared c
 propose / vote / execute / close transactions (with re-entrant self-calls, failing dispatches and
 rolled-back transactions), fund transfers and block changes: `Reachable fuel w`.
 
-The cw3-flex part of C06 (group snapshots) is pending; the generic lemmas it will reuse are in
+The cw3-flex part of C06 (group snapshots) is `Props/C06Flex.lean`; the generic lemmas both parts use are in
 `Lemmas/Cw3Core.lean` (`WF`, `vote_spec`, `propose_spec`, `tallyOf`, `weightSum_le_sum`, `Later`).
 -/
 namespace CwPlus.Props.C06
